@@ -110,5 +110,6 @@ func selectFunc(ctx *flags.Context) error {
 		return ctx.Raise(fmt.Errorf("encountered error in scanner: %v", err))
 	}
 
+	d.Commit()
 	return nil
 }
